@@ -112,6 +112,17 @@ pub mod step {
         assert!(c.verif_state().1 == 2.0);
         c.set_sample_hz_scale(4.0);
         assert!(c.verif_state().1 == 0.25);
+        // no setter moves the position: from ANY position v, each setter leaves v where it is
+        let v: f64 = kani::any();
+        kani::assume(v >= 0.0 && v < VMAX);
+        let mut cs = Converter::verif_from_state(any_source(), Rec::new(), v, 0.5);
+        cs.set_hz_to_hz(44100.0, 44100.0);
+        assert!(cs.verif_state().0 == v && cs.verif_state().1 == 1.0, "set_hz_to_hz changes the ratio only");
+        cs.set_playback_hz_scale(r);
+        assert!(cs.verif_state().0 == v && cs.verif_state().1 == r, "set_playback_hz_scale changes the ratio only");
+        cs.set_sample_hz_scale(2.0);
+        assert!(cs.verif_state().0 == v && cs.verif_state().1 == 0.5, "set_sample_hz_scale changes the ratio only");
+        kani::cover!(v >= 1.0, "a whole-frame advance is pending");
         let c2 = Converter::from_hz_to_hz(any_source(), Rec::new(), 48000.0, 12000.0);
         assert!(c2.verif_state().1 == 4.0 && c2.verif_state().0 == 0.0);
         let c3 = Converter::scale_sample_hz(any_source(), Rec::new(), 8.0);
